@@ -294,13 +294,15 @@ let () =
         tick "sep_ok";
         let unsupported = Stdlib.List.length (Stdlib.List.filter (fun t -> not (supported_kind t)) toks) in
         let small = Array.length out_i <= limit in
-        let l = if small then (if relex_same toks out_n then "1" else "0") else "-" in
-        let mt =
-          if small then
-            (match lex_all out_n with
-             | Done (ts, _) -> Stdlib.String.concat ";" (Stdlib.List.map token ts)
-             | Aborted _ -> "ABORT")
-          else "-" in
+        let lexed = if small then Some (lex_all out_n) else None in
+        let l = match lexed with
+          | Some (Done (ts, [])) -> if same_stream_b toks ts then "1" else "0"
+          | Some _ -> "0"
+          | None -> "-" in
+        let mt = match lexed with
+          | Some (Done (ts, _)) -> Stdlib.String.concat ";" (Stdlib.List.map token ts)
+          | Some (Aborted _) -> "ABORT"
+          | None -> "-" in
         let term =
           if Sys.getenv_opt "C12_COQ_TERMS" <> None && Array.length out_i <= 400 && l <> "-" then
             Printf.sprintf "([%s], %s, %b, %b, %b)" (Stdlib.String.concat "; " (Stdlib.List.map coq_op ops)) (coq_ns out_n)
